@@ -908,7 +908,7 @@ func (w *World) runGC(plan *GCPlan) *GCReport {
 	// planned faults of the GC client are addressed relative to this marker; a split attached to one of
 	// its requests (ScanLock, ResolveLock, ...) cuts the region the request goes to at a key INSIDE it
 	w.Net.SetMark(len(w.Stores)-1, "gc")
-	w.Net.Topo = &innerSplitTopo{cl: w.Cl, keys: w.allKeys, h: simkit.NewHasher(w.Sim.Seed, "gcsplit")}
+	w.Net.Topo = &simkit.InnerSplitTopo{Cl: w.Cl, Keys: w.allKeys, H: simkit.NewHasher(w.Sim.Seed, "gcsplit"), Always: true}
 	defer func() { w.Net.Topo = w.Cl }()
 	// 1. range task coverage with a recording handler
 	var mu sync.Mutex
@@ -1010,32 +1010,6 @@ func (w *World) runGC(plan *GCPlan) *GCReport {
 	}
 	return rep
 }
-
-// innerSplitTopo splits the region a request goes to at a key of the pool strictly inside it (the plain
-// cluster topology splits at the request's first key, which for a range request is the region's start).
-type innerSplitTopo struct {
-	cl   *simkit.Cluster
-	keys [][]byte
-	h    *simkit.Hasher
-	n    int
-}
-
-func (t *innerSplitTopo) SplitAt(key []byte) bool {
-	lo, hi := t.cl.RangeOf(key)
-	var cands [][]byte
-	for _, k := range t.keys {
-		if bytes.Compare(k, lo) > 0 && (len(hi) == 0 || bytes.Compare(k, hi) < 0) {
-			cands = append(cands, k)
-		}
-	}
-	if len(cands) == 0 {
-		return false
-	}
-	t.n++
-	return t.cl.SplitAt(cands[t.h.Intn(fmt.Sprintf("%q#%d", key, t.n), len(cands))])
-}
-
-func (t *innerSplitTopo) MoveLeaderOf(key []byte) bool { return t.cl.MoveLeaderOf(key) }
 
 // runDeleteRange executes the delete-range task after everything else was audited.
 func (w *World) runDeleteRange(plan *GCPlan, rep *GCReport) {
